@@ -51,6 +51,7 @@ type eNAct struct {
 	Hi  int    `json:"hi,omitempty"`
 	Tag string `json:"tag,omitempty"`
 	Var string `json:"v2,omitempty"`
+	Msg string `json:"msg,omitempty"`
 }
 type eLink struct {
 	Tg  []eTarget `json:"tg"`
@@ -80,6 +81,7 @@ type eRule struct {
 	Tags  []string `json:"tags"`
 	Log   bool     `json:"log"`
 	Audit bool     `json:"audit"`
+	Msg   string   `json:"msg,omitempty"` // msg text (hex field); absent = no msg action
 }
 type eCase struct {
 	Ae    string      `json:"ae,omitempty"`    // audit engine (audit engine only)
@@ -113,6 +115,12 @@ func (a eNAct) MarshalJSON() ([]byte, error) {
 		m["tag"] = a.Tag
 	case "ctlRemoveTargetById":
 		m["lo"], m["hi"], m["v"], m["k"] = a.Lo, a.Hi, a.Var, a.K
+	case "ctlRemoveByMsg":
+		m["msg"] = a.Msg
+	case "ctlRemoveTargetByTag":
+		m["tag"], m["v"], m["k"] = a.Tag, a.Var, a.K
+	case "ctlRemoveTargetByMsg":
+		m["msg"], m["v"], m["k"] = a.Msg, a.Var, a.K
 	case "ctlAuditEngine":
 		m["m"] = a.M
 	case "ctlAuditLogParts":
@@ -145,6 +153,12 @@ func (a *eNAct) UnmarshalJSON(b []byte) error {
 		a.Tag = s("tag")
 	case "ctlRemoveTargetById":
 		a.Lo, a.Hi, a.Var, a.K = n("lo"), n("hi"), s("v"), s("k")
+	case "ctlRemoveByMsg":
+		a.Msg = s("msg")
+	case "ctlRemoveTargetByTag":
+		a.Tag, a.Var, a.K = s("tag"), s("v"), s("k")
+	case "ctlRemoveTargetByMsg":
+		a.Msg, a.Var, a.K = s("msg"), s("v"), s("k")
 	}
 	return nil
 }
@@ -204,6 +218,17 @@ func renderNAct(a eNAct) string {
 			t += ":" + k
 		}
 		return "ctl:ruleRemoveTargetById=" + id + ";" + t
+	case "ctlRemoveByMsg":
+		return "ctl:ruleRemoveByMsg=" + gen.Unfield(a.Msg)
+	case "ctlRemoveTargetByTag", "ctlRemoveTargetByMsg":
+		t := a.Var
+		if k := gen.Unfield(a.K); k != "" {
+			t += ":" + k
+		}
+		if a.N == "ctlRemoveTargetByTag" {
+			return "ctl:ruleRemoveTargetByTag=" + gen.Unfield(a.Tag) + ";" + t
+		}
+		return "ctl:ruleRemoveTargetByMsg=" + gen.Unfield(a.Msg) + ";" + t
 	}
 	return "nolog"
 }
@@ -242,6 +267,8 @@ func renderDir(r eRule) string {
 		return "SecRuleRemoveById " + renderSels(r.Sels) + "\n"
 	case "removeByTag":
 		return "SecRuleRemoveByTag " + gen.Unfield(r.Tag) + "\n"
+	case "removeByMsg":
+		return "SecRuleRemoveByMsg " + gen.Unfield(r.Msg) + "\n"
 	case "updateTargetById":
 		return "SecRuleUpdateTargetById " + renderSels(r.Sels) + " \"" + renderTargets(r.Tg) + "\"\n"
 	case "updateTargetByTag":
@@ -314,6 +341,9 @@ func renderRule(r eRule) string {
 			}
 			for _, t := range r.Tags {
 				acts = append(acts, "tag:'"+gen.Unfield(t)+"'")
+			}
+			if r.Msg != "" {
+				acts = append(acts, "msg:'"+gen.Unfield(r.Msg)+"'")
 			}
 			if r.Log {
 				acts = append(acts, "log")
@@ -470,7 +500,7 @@ func runEngCase(waf coraza.WAF, c *eCase, cbp *[]string) string {
 var (
 	eKeys   = []string{"a", "b", "A", "c", "Ab"}
 	eVals   = []string{"x", "y", "xy", "X", "1", "2", "10", "", " x ", "%78", "x\x00", "%2578", "%252578", "10.1.2.3", "192.168.1.7", "1.2.3.4"} // double encodings: urlDecode is not idempotent
-	eTxKeys = []string{"s", "n", "k", "S", "1"}                                                            // TX.1 exists from the start and is empty (capture slot)
+	eTxKeys = []string{"s", "n", "k", "S", "1"}                                                                                                  // TX.1 exists from the start and is empty (capture slot)
 	eMapVar = []string{"ARGS_GET", "ARGS_POST", "ARGS", "REQUEST_HEADERS", "TX", "ARGS_NAMES", "ARGS_GET_NAMES", "ARGS_POST_NAMES", "REQUEST_HEADERS_NAMES", "MATCHED_VARS", "MATCHED_VARS_NAMES"}
 	eOps    = []string{"streq", "contains", "beginsWith", "endsWith", "within", "eq", "ge", "gt", "le", "lt", "pm", "unconditionalMatch", "noMatch", "ipMatch", "rx"}
 	eTfs    = []string{"lowercase", "uppercase", "trim", "urlDecode", "removeNulls", "hexEncode", "length", "trimLeft", "urlEncode"}
@@ -583,6 +613,22 @@ func genNAct(r *gen.R, p engProfile, det bool, ruleIDs []int) eNAct {
 	}
 	if r.Chance(0.15 + p.ctl) {
 		id := ruleIDs[r.Intn(len(ruleIDs))]
+		if r.Chance(0.18) {
+			// the ByTag / ByMsg forms
+			k := "-"
+			if r.Chance(0.7) {
+				k = genKeySel(r, p, false)
+			}
+			v := r.Pick("ARGS_GET", "ARGS", "ARGS_POST", "REQUEST_HEADERS", "TX")
+			switch r.Intn(3) {
+			case 0:
+				return eNAct{N: "ctlRemoveByMsg", Msg: gen.Field(r.Pick("m1", "m2", "m9"))}
+			case 1:
+				return eNAct{N: "ctlRemoveTargetByTag", Tag: gen.Field(r.Pick("t1", "t2", "t9")), Var: v, K: k}
+			default:
+				return eNAct{N: "ctlRemoveTargetByMsg", Msg: gen.Field(r.Pick("m1", "m2", "m9")), Var: v, K: k}
+			}
+		}
 		switch r.Intn(6) {
 		case 0:
 			return eNAct{N: "ctlRuleEngine", M: r.Pick("On", "DetectionOnly", "Off")}
@@ -699,6 +745,9 @@ func genDirective(r *gen.R, p engProfile, ids []int) eRule {
 		d.Dir, d.Sels = "removeById", genSels(r, ids)
 	case 1:
 		d.Dir, d.Tag = "removeByTag", gen.Field(r.Pick("t1", "t2", "t9"))
+		if r.Chance(0.4) {
+			d.Dir, d.Tag, d.Msg = "removeByMsg", "", gen.Field(r.Pick("m1", "m2", "m9"))
+		}
 	case 2, 3:
 		d.Dir, d.Sels, d.Tg = "updateTargetById", genSels(r, ids), genDirTargets(r, p)
 	case 4:
@@ -826,6 +875,9 @@ func genEngCase(r *gen.R, p engProfile) *eCase {
 		}
 		if r.Chance(0.3) {
 			ru.Tags = append(ru.Tags, gen.Field(r.Pick("t1", "t2")))
+		}
+		if r.Chance(0.3) {
+			ru.Msg = gen.Field(r.Pick("m1", "m2"))
 		}
 		c.Rules = append(c.Rules, ru)
 	}
